@@ -188,3 +188,219 @@ func (in *inliner) deferResultEdits(tpkg *types.Package, info *types.Info, fd *a
 	_ = nDefer
 	return eds, true
 }
+
+// planDeferExplicit: an unexported helper that is not an anchor and whose defers are plain calls registered at the top
+// level of its body (`mu.Lock(); defer mu.Unlock(); ...`) gets its deferred calls written out at its exits, results
+// evaluated first: `return E` -> `{ r := E; mu.Unlock(); return r }`. The helper can then be expanded at its calls like
+// any other (a locked section moved into a method of its own is the locked section again). Anchored and exported
+// functions keep their defers: the lock rules read them as written. Not reproduced: deferred calls running during a
+// panic.
+func planDeferExplicit(p *Prog, in *inliner, plan *roundPlan) {
+	for _, pkg := range p.Pkgs {
+		info := pkg.TypesInfo
+		for _, file := range pkg.Syntax {
+			if strings.HasSuffix(p.Fset.Position(file.Pos()).Filename, "_test.go") {
+				continue
+			}
+			for _, d := range file.Decls {
+				fd, ok := d.(*ast.FuncDecl)
+				if !ok || fd.Body == nil || ast.IsExported(fd.Name.Name) || fd.Name.Name == "main" || fd.Name.Name == "init" {
+					continue
+				}
+				fo, _ := info.Defs[fd.Name].(*types.Func)
+				fn := p.FnOf(fo)
+				if fn == nil || Anchors.has(fn) {
+					continue
+				}
+				if eds, ok := in.deferExplicitEdits(info, fd); ok {
+					fe := in.file(fd.Pos())
+					fe.edits = append(fe.edits, eds...)
+					plan.expanded = append(plan.expanded, "deferred calls of helper "+fd.Name.Name+" written out at its exits")
+				}
+			}
+		}
+	}
+}
+
+func (in *inliner) deferExplicitEdits(info *types.Info, fd *ast.FuncDecl) ([]textEdit, bool) {
+	// named results are the business of planDeferResult
+	if fd.Type.Results != nil {
+		for _, fld := range fd.Type.Results.List {
+			if len(fld.Names) > 0 {
+				return nil, false
+			}
+		}
+	}
+	var defers []*ast.DeferStmt
+	bad := false
+	ast.Inspect(fd.Body, func(n ast.Node) bool {
+		switch x := n.(type) {
+		case *ast.FuncLit:
+			return false
+		case *ast.DeferStmt:
+			top := false
+			for _, st := range fd.Body.List {
+				if st == ast.Stmt(x) {
+					top = true
+				}
+			}
+			if !top {
+				bad = true
+			}
+			defers = append(defers, x)
+		case *ast.LabeledStmt, *ast.GoStmt:
+			bad = true
+		case *ast.BranchStmt:
+			if x.Tok == token.GOTO {
+				bad = true
+			}
+		case *ast.Ident:
+			if b, isB := info.Uses[x].(*types.Builtin); isB && b.Name() == "recover" {
+				bad = true
+			}
+		}
+		return true
+	})
+	if bad || len(defers) == 0 {
+		return nil, false
+	}
+	assigned := map[types.Object]bool{}
+	ast.Inspect(fd.Body, func(n ast.Node) bool {
+		switch x := n.(type) {
+		case *ast.AssignStmt:
+			if x.Tok != token.DEFINE {
+				for _, l := range x.Lhs {
+					if id, ok := ast.Unparen(l).(*ast.Ident); ok {
+						assigned[info.Uses[id]] = true
+					}
+				}
+			}
+		case *ast.IncDecStmt:
+			if id, ok := ast.Unparen(x.X).(*ast.Ident); ok {
+				assigned[info.Uses[id]] = true
+			}
+		}
+		return true
+	})
+	for _, ds := range defers {
+		if _, isLit := ast.Unparen(ds.Call.Fun).(*ast.FuncLit); isLit {
+			return nil, false
+		}
+		ok := true
+		check := func(e ast.Expr) {
+			if !isPlainOperand(e) {
+				if tv, has := info.Types[e]; !has || tv.Value == nil {
+					ok = false
+				}
+				return
+			}
+			ast.Inspect(e, func(m ast.Node) bool {
+				if id, isId := m.(*ast.Ident); isId && assigned[info.Uses[id]] {
+					ok = false
+				}
+				return true
+			})
+		}
+		for _, a := range ds.Call.Args {
+			check(a)
+		}
+		if sel, isSel := ast.Unparen(ds.Call.Fun).(*ast.SelectorExpr); isSel {
+			check(sel.X)
+		}
+		if !ok {
+			return nil, false
+		}
+	}
+	callsBefore := func(pos token.Pos) string {
+		var sb strings.Builder
+		for i := len(defers) - 1; i >= 0; i-- {
+			if defers[i].Pos() < pos {
+				sb.WriteString(in.text(defers[i].Call.Pos(), defers[i].Call.End()) + "\n")
+			}
+		}
+		return sb.String()
+	}
+	var eds []textEdit
+	ctr := 0
+	okAll := true
+	ast.Inspect(fd.Body, func(n ast.Node) bool {
+		if _, isLit := n.(*ast.FuncLit); isLit {
+			return false
+		}
+		rt, ok := n.(*ast.ReturnStmt)
+		if !ok {
+			return true
+		}
+		calls := callsBefore(rt.Pos())
+		if calls == "" {
+			return true
+		}
+		var sb strings.Builder
+		sb.WriteString("{\n")
+		var outs []string
+		if len(rt.Results) == 1 {
+			if tv, has := info.Types[rt.Results[0]]; has {
+				if tup, isTup := tv.Type.(*types.Tuple); isTup {
+					// return f() with several results
+					var names []string
+					for i := 0; i < tup.Len(); i++ {
+						ctr++
+						names = append(names, "_dfr"+itoaS(ctr))
+					}
+					sb.WriteString(strings.Join(names, ", ") + " := " + in.text(rt.Results[0].Pos(), rt.Results[0].End()) + "\n")
+					outs = names
+				}
+			}
+		}
+		if outs == nil {
+			for _, e := range rt.Results {
+				tv, has := info.Types[e]
+				if !has {
+					okAll = false
+					continue
+				}
+				if tv.Value != nil || tv.IsNil() {
+					outs = append(outs, in.text(e.Pos(), e.End()))
+					continue
+				}
+				ctr++
+				nm := "_dfr" + itoaS(ctr)
+				sb.WriteString(nm + " := " + in.text(e.Pos(), e.End()) + "\n")
+				outs = append(outs, nm)
+			}
+		}
+		sb.WriteString(calls)
+		sb.WriteString("return " + strings.Join(outs, ", ") + "\n}")
+		eds = append(eds, textEdit{start: in.off(rt.Pos()), end: in.off(rt.End()), text: sb.String()})
+		return true
+	})
+	if !okAll {
+		return nil, false
+	}
+	// falling off the end
+	last := fd.Body.List[len(fd.Body.List)-1]
+	if _, isRet := last.(*ast.ReturnStmt); !isRet {
+		if fd.Type.Results != nil && len(fd.Type.Results.List) > 0 {
+			// a function with results ends in a terminating statement: nothing falls off the end - unless it ends in a
+			// panic / infinite loop, which is left alone
+		} else {
+			eds = append(eds, textEdit{start: in.off(fd.Body.Rbrace), end: in.off(fd.Body.Rbrace), text: "\n" + callsBefore(fd.Body.Rbrace)})
+		}
+	}
+	for _, ds := range defers {
+		eds = append(eds, textEdit{start: in.off(ds.Pos()), end: in.off(ds.End()), text: ""})
+	}
+	return eds, true
+}
+
+func itoaS(n int) string {
+	if n == 0 {
+		return "0"
+	}
+	s := ""
+	for n > 0 {
+		s = string(rune('0'+n%10)) + s
+		n /= 10
+	}
+	return s
+}
